@@ -510,6 +510,10 @@ class ProfileCoordinates(Contract):
             yield (p1, p2, rng.choice([1, 2, 3, 10, 51])), dict(extra_coords=rng.choice([None, 4.0, [1.0, 2.0]]))
         yield ((0.0, 0.0), (1.0, 1.0), 0), {}
         yield ((0.0, 0.0), (1.0, 1.0), -2), {}
+        # end points that are rows of integer arrays (numpy fixed-width integers: UTM metres, pixel numbers) and Python ints
+        for dt, span in (("int64", 10**6), ("int32", 10**5), ("int32", 300), ("int64", 4 * 10**9), (None, 10**7)):
+            pts = nrng.randint(-span, span, (2, 2)).astype(dt) if dt else [[rng.randint(-span, span) for _ in range(2)] for _ in range(2)]
+            yield (tuple(pts[0]), tuple(pts[1]), rng.choice([2, 3, 11])), {}
 
     def configs(self, tier):
         return [{"extra": None}, {"extra": "one"}, {"extra": "two"}]
